@@ -586,7 +586,34 @@ func (r *aRun) checkNoPhantoms(v *aView, prop string, alt ...*aReference) {
 		if v.byStamp[st] != nil {
 			continue
 		}
+		// the forwarded unfinished last line of a connection: exactly what the same bytes give on a fresh pipeline
+		exactTail := false
+		for _, tail := range v.tailList {
+			for _, ref := range refs {
+				if t := ref.eval(tail); t.entry != nil && sameEvent(ds[0].entry, t.entry, false) == "" {
+					exactTail = true
+				}
+			}
+		}
+		if exactTail {
+			r.out.probe("partial_tail_forwarded", 1)
+			continue
+		}
 		if sr := v.partialSt[st]; sr != nil {
+			// a multi-line record of which only some complete lines were read: the event of exactly those lines
+			lines := strings.Split(framedMessage(sr), "\n")
+			okPrefix := false
+			for k := 1; k < len(lines) && !okPrefix; k++ {
+				for _, ref := range refs {
+					if t := ref.eval(strings.Join(lines[:k], "\n")); t.entry != nil && sameEvent(ds[0].entry, t.entry, false) == "" {
+						okPrefix = true
+					}
+				}
+			}
+			if okPrefix {
+				r.out.probe("partial_tail_forwarded", 1)
+				continue
+			}
 			got, _ := ds[0].entry.Record["log"].(string)
 			want := ""
 			if e := v.ref.eval(framedMessage(sr)).entry; e != nil {
